@@ -85,7 +85,7 @@ fn bare_safe(key: &str) -> bool {
 			// Numerical words taken from https://yaml.org/type/float.html
 			".nan", "-.inf", "+.inf", ".inf", "null",
 			// Invalid keys that contain no invalid characters
-			"-", "---", "",
+			"-", "---", "...", "",
 		];
 		RESERVED.iter().any(|k| key.eq_ignore_ascii_case(k))
 	}
@@ -164,6 +164,27 @@ fn bare_safe(key: &str) -> bool {
 	true
 }
 
+/// JSON escaping, plus the characters which YAML either forbids in quoted scalars (DEL, C1
+/// controls, non-characters) or treats as line breaks inside them (NEL, LS, PS)
+fn escape_string_yaml_buf(s: &str, buf: &mut String) {
+	fn needs_escape(c: char) -> bool {
+		matches!(c, '\u{7f}'..='\u{9f}' | '\u{2028}' | '\u{2029}' | '\u{feff}' | '\u{fffe}' | '\u{ffff}')
+	}
+	let start = buf.len();
+	escape_string_json_buf(s, buf);
+	if !buf[start..].chars().any(needs_escape) {
+		return;
+	}
+	let escaped = buf.split_off(start);
+	for c in escaped.chars() {
+		if needs_escape(c) {
+			write!(buf, "\\u{:04x}", c as u32).unwrap();
+		} else {
+			buf.push(c);
+		}
+	}
+}
+
 #[allow(dead_code)]
 fn manifest_yaml_ex(val: &Val, options: &YamlFormat<'_>) -> Result<String> {
 	let mut out = String::new();
@@ -210,7 +231,7 @@ fn manifest_yaml_ex_buf(
 			} else if !options.quote_values && bare_safe(&s) {
 				buf.push_str(&s);
 			} else {
-				escape_string_json_buf(&s, buf);
+				escape_string_yaml_buf(&s, buf);
 			}
 		}
 		Val::Num(n) => write!(buf, "{}", *n).unwrap(),
@@ -271,7 +292,7 @@ fn manifest_yaml_ex_buf(
 				if !options.quote_keys && bare_safe(&key) {
 					buf.push_str(&key);
 				} else {
-					escape_string_json_buf(&key, buf);
+					escape_string_yaml_buf(&key, buf);
 				}
 				buf.push(':');
 				let prev_len = cur_padding.len();
